@@ -441,6 +441,8 @@ def _lane_main(conn, prop, tier, seed, label, job, findings):
         if kind == "g":
             _, name, batches, kw = job
             family, invs, props, _ = FAMS[name]
+            if prop == "C04":       # the stream handshake contract of the packet elements (see run_handshake)
+                invs = [i for i in invs if i in HANDSHAKE_INVS]
             stats = run_batches(family, rep, batches, invs, props, log=log, heap="6g", **kw)
             rep.add(duts_explored=len(stats), per_dut=stats)
         elif kind == "t":
@@ -597,6 +599,33 @@ def run(prop, report, tier, seed):
     report.add(lanes=[l for l, _ in lanes])
     report.add(clauses={"frame": FRAME_INVS + FRAME_PROPS, "fifo": FIFO_INVS + FIFO_PROPS, "route": ROUTE_INVS + ROUTE_PROPS})
     report.cov["exhaustive"] = True
+
+
+HANDSHAKE_INVS = ("ValidHold", "Bounded")
+
+
+def run_handshake(prop, report, tier, seed):
+    """C04 (litex/soc/interconnect/packet.py is one of its anchors): Packetizer, Depacketizer, PacketFIFO, Arbiter and
+    Dispatcher are stream elements; their G-mode products are explored for the handshake clauses only - ValidHold (a
+    presented beat stays unchanged until it is accepted) and Liveness (no deadlock / livelock under cooperation).
+    The environment classes in which a recorded C16 defect shows are left to C16."""
+    report.assume("packet elements (packet.py): same environment as C16 (producers hold offers, params constant within a "
+                  "packet, Dispatcher sel part of the first beat's offer); only ValidHold / Bounded / Liveness are C04 clauses")
+    quick = tier == "quick"
+    followup = {"followup": False}
+    frames = [s for s in fam.frame_configs(tier) if not expected_to_fail(s)]
+    fifos = [s for s in fam.fifo_configs(tier) if not expected_to_fail(s) and s["depth"] < (3 if quick else 4)]
+    routes = [s for s in fam.route_configs(tier) if not (s["n"] >= 3 or s["m"] >= 4)]
+    for s in frames + fifos:
+        s.pop("followup", None)
+    lanes = []
+    step = 14
+    for k in range(0, len(frames), step):
+        lanes.append(("c04-frame-%d" % (k // step), ("g", "frame", [_pairs(frames[k:k + step])], followup)))
+    lanes.append(("c04-fifo", ("g", "fifo", [_pairs(fifos)], followup)))
+    lanes.append(("c04-route", ("g", "route", [_pairs(routes)], followup)))
+    run_lanes(report, prop, tier, seed, lanes)
+    report.add(packet_lanes=[l for l, _ in lanes], packet_clauses=list(HANDSHAKE_INVS) + ["Liveness"])
 
 
 # ============================================================================================ replay
